@@ -444,6 +444,7 @@ type FuncContract struct {
 	AtOpt     map[string]bool     // at-clauses whose call need not occur (at?)
 	Never     map[string]string   // call-text prefixes that must not occur (value: label)
 	Propagates bool               // every error returned by a callee must make this function return an error
+	OwnErrors  bool               // false by default; set by "noownerrors": every error this function returns is one a callee returned
 	NoProp    []string            // call texts (prefixes) whose error is deliberately discarded
 	Trusts    []Clause // postconditions assumed by callers but NOT checked against the body (listed as assumptions)
 	PostDefs  []Clause // spec-function definitions instantiated at the results (assumed at every return)
@@ -665,6 +666,9 @@ func (c *Contracts) loadFile(path string, pkgName string) error {
 				cur.At = map[string][]Clause{}
 			}
 			cur.At[key] = append(cur.At[key], cl)
+		case "noownerrors":
+			// the function raises no error of its own: a non-nil error result is the error result of one of its calls
+			cur.OwnErrors = true
 		case "propagates":
 			cur.Propagates = true
 			for _, x := range strings.Split(rest, ",") {
